@@ -41,6 +41,19 @@ def build_pf(pe, x):
         return pe.instantiate(build_pf(pe, x[1]), {int(a): npat(b) for a, b in x[2]})
     if k == 'axiom':
         return pe.load_axiom(npat(x[1]))
+    if k == 'rawinst':
+        # a proof author calling the interpreter's own `instantiate` (public API, empty maps included) instead of
+        # ProofExp.dynamic_inst, which drops empty maps before they reach the interpreter
+        from proof_generation.proof import ProofThunk
+        pf = build_pf(pe, x[1])
+        delta = {int(a): npat(b) for a, b in x[2]}
+        conc = pf.conc.instantiate(delta) if delta else pf.conc
+
+        def run(interpreter, pf=pf, delta=delta):
+            for q in delta.values():
+                interpreter.pattern(q)
+            return interpreter.instantiate(pf(interpreter), dict(delta))
+        return ProofThunk(run, conc)
     raise ValueError(k)
 
 
